@@ -234,3 +234,6 @@ Definition pair_disagreements : list (list token) :=
 Definition triple_disagreements : list (list token) :=
   flat_map (fun n => flat_map (fun i => flat_map (fun j => flat_map (fun k =>
     let ts := chain n [i; j; k] in if agree ts then [] else [ts]) all_items) all_items) all_items) [false; true].
+
+(* acceptance by the committed tables of an arbitrary token sequence of the whole language (no semantic actions) *)
+Definition accepts (toks : list ltok) : bool := match lr_parse toks with Accept _ => true | _ => false end.
